@@ -123,6 +123,7 @@ int main(){
                 std::cout << "OK cells=" << si.get_cell_lst().size();
                 // a start-up that completes hands its cells to the solver: each of them must be a closed oriented surface
                 for (const cell_ptr& c : si.get_cell_lst()) if (!closed_oriented_surface(c)) { std::cout << " INVALIDCELL"; break; }
+                std::cout << " NN"; for (const cell_ptr& c : si.get_cell_lst()) std::cout << " " << c->get_nb_of_nodes();
                 std::cout << "\n";
             } else std::cout << "FATAL unknown mode\n";
         } catch (const std::exception& e){ std::cout << "EXC " << clean(e.what()) << "\n"; }
